@@ -25,6 +25,8 @@ func runC19(r *oblig.Report) {
 	q := w.R83(r, "go/lexer", "lexer")
 	q += w.R83(r, "go/parser", "parser")
 	w.R87(r)
+	r.Rule("R8.7b", "instance-table", "every hard-coded LL(1) lookahead test of the generated Go parser names the lookahead set of an alternative of its decision state in the embedded automaton", 40)
+	w.R87Lookahead(r, "R8.7b")
 	// R1.5 needs the type-checked Go packages
 	if p, err := load.LoadPatterns(false, "./transformer", "./gen"); err != nil {
 		r.Unknown("load", "load:transformer+gen", "-", err.Error())
